@@ -57,6 +57,7 @@ REQUIRED = [
     "hist_password_changes",
     "keepalive.unauth_after_auth_same_connection",
     "keepalive.authenticated_requests",
+    "xsrf_matrix.session_cookie_plus_extra_credential",
 ]
 RULE = (
     "case = one HTTP request (route instance, method, credential form, XSRF form, Sec-Fetch-Site) or one /updates "
@@ -65,7 +66,8 @@ RULE = (
     "options or the HTTP API) each followed by cookie-less requests presenting the current, every previously valid and "
     "never-valid passwords via Bearer, ?token= and the login form, or one sequence of 2-6 requests on ONE keep-alive connection "
     "(sequential or pipelined; valid credential via Bearer / ?token= / login form / cookie mixed with none / wrong in every order, "
-    "optionally a credential-less websocket upgrade last); stage A covers every "
+    "optionally a credential-less websocket upgrade last); a fixed matrix (every implemented state-changing route/method x valid "
+    "session cookie x {no, header-only, mismatching} XSRF token x {no, junk, valid} additional credential via Bearer / ?token= / form) runs first; stage A covers every "
     "route x method with every value of each dimension (others at their most permissive), then the full product is "
     "walked in a seeded permutation (completely in the thorough tier if time allows); distinct = distinct (route "
     "pattern, method, credential form, XSRF form, Sec-Fetch-Site) tuple; non-trivial = the policy demands something of "
@@ -174,10 +176,14 @@ def classify(item, status):
     return None
 
 
+EXTRA_CREDENTIALS = ["none", "junk-bearer", "junk-query", "junk-form", "valid-bearer", "valid-query", "valid-form"]
+
+
 class Plan:
     def __init__(self, rig, seed, tier="quick"):
         self.n_hist = 32 if tier == "quick" else 640
         self.n_keepalive = 64 if tier == "quick" else 3000
+        self.xsrf_matrix = []
         routes, self.skipped_static = rig.routes()
         self.routes = routes
         self.instances = []  # (route_idx, path, primary)
@@ -188,6 +194,15 @@ class Plan:
                 self.instances.append((ri, p, k == 0))
             if issubclass(cls, tornado.websocket.WebSocketHandler):
                 self.ws_routes.append((ri, paths[0]))
+        # fixed matrix, first seconds of every tier: every state-changing route/method the application implements, riding
+        # on a valid session cookie, without a valid XSRF token, with and without an ADDITIONAL (junk or valid) credential
+        for ri, p, prim in self.instances:
+            for m in pol.METHODS:
+                if m in pol.SAFE_METHODS or not implements(routes[ri][1], m):
+                    continue
+                for x in ("none", "header-only", "mismatch-header"):
+                    for extra in EXTRA_CREDENTIALS:
+                        self.xsrf_matrix.append({"route": ri, "path": p, "method": m, "cred": "cookie-valid", "xsrf": x, "sfs": None, "sfs_class": "ok", "extra": extra})
         creds = [c for c, _ in pol.CRED_FORMS]
         xsrfs = [x for x, _ in pol.XSRF_FORMS]
         nsfs = len(pol.SFS)
@@ -254,6 +269,9 @@ class Plan:
         if k < len(self.ws_items):
             return dict(self.ws_items[k]), "ws"
         k -= len(self.ws_items)
+        if k < len(self.xsrf_matrix):
+            return dict(self.xsrf_matrix[k]), "xsrfmatrix"
+        k -= len(self.xsrf_matrix)
         if k < self.n_hist:
             return {"hist": True, "n": k}, "hist"
         k -= self.n_hist
@@ -316,6 +334,15 @@ async def do_http(ctx, rig, plan, item, flowdump):
         target += "?" + urllib.parse.urlencode(q)
     ctype, body = hostile_body(item["path"], method, flowdump)
     cf = pol.build_cred_form(item["cred"], token=rig.token, rng=r)
+    extra = item.get("extra", "none")
+    if extra != "none":
+        secret = rig.token if extra.startswith("valid") else r.choice(["x", "junk", rig.token[:-1]])
+        if extra.endswith("bearer"):
+            headers.append(("Authorization", f"Bearer {secret}"))
+        elif extra.endswith("query"):
+            target += ("&" if "?" in target else "?") + urllib.parse.urlencode({"token": secret})
+        else:
+            cf = cf + [("token", secret)]
     if (xf or cf) and method not in pol.SAFE_METHODS:
         ctype, body = "application/x-www-form-urlencoded", urllib.parse.urlencode(xf + cf).encode()
     elif xf:
@@ -346,6 +373,9 @@ async def do_http(ctx, rig, plan, item, flowdump):
         "status": resp.status,
         "method_implemented": impl,
     }
+    if "extra" in item:
+        wit["additional_credential"] = item["extra"]
+        ctx.count("xsrf_matrix.session_cookie_plus_extra_credential")
     ctx.seen("statuses", f"{'auth' if cred_valid else 'unauth'}:{resp.status}")
     if exp["must_403"]:
         ctx.count("unauth_status")
@@ -784,7 +814,7 @@ async def amain(ctx):
                 status = await do_http(ctx, rig, plan, item, flowdump)
                 e = pol.expected(item["method"], pol.CRED_VALID[item["cred"]], pol.XSRF_VALID[item["xsrf"]], item["sfs_class"])
                 demanded = e["must_403"] or e["must_refuse"] or e["must_not_change"]
-                sig = (item["route"], item["method"], item["cred"], item["xsrf"], item["sfs"])
+                sig = (item["route"], item["method"], item["cred"], item["xsrf"], item["sfs"]) + ((item["extra"],) if "extra" in item else ())
             ctx.count(f"stage_{stage}")
             ctx.case(sig, nontrivial=demanded, sample={k2: item[k2] for k2 in ("path", "method", "cred", "xsrf", "sfs")} | {"status": status})
         if done_all:
